@@ -10,9 +10,38 @@
 (***************************************************************************)
 EXTENDS XotForest
 
+DeclsAtK(N, i) == IF N[i].k = "elem" THEN {<<N[x].ln, N[x].u>> : x \in SeqRange(NsKids(N, i))} ELSE {}
+
 KnownId(prop, e, N, cons, detail) == ""
 
 \* parser engine: e = the event (input + runs), entry = the entry point, detail = the rejection
 KnownParse(prop, e, entry, detail) == ""
+
+\* serialiser engine: e = the event (forest, root, parameters, results)
+\* K-C10-unprefixed-element-under-default-namespace: an element in no namespace below a default-namespace declaration is
+\* written unprefixed (and so lands in the default namespace).  Signature: the written names differ from the tree's
+\* names exactly at such elements.
+RECURSIVE DefaultNsB(_, _, _)
+DefaultNsB(N, x, d) ==
+    LET own == {b[2] : b \in {c \in DeclsAtK(N, x) : c[1] = ""}} IN
+    IF own # {} THEN CHOOSE u \in own : TRUE ELSE IF d = 0 \/ N[x].p = 0 THEN "" ELSE DefaultNsB(N, N[x].p, d - 1)
+NameSeqAsWritten(N, top) ==
+    LET es == SelectSeq(PreNorm(N, top), LAMBDA x : N[x].k = "elem") IN
+    [j \in 1..Len(es) |-> <<IF N[es[j]].ns = "" THEN DefaultNsB(N, es[j], Len(N)) ELSE N[es[j]].ns, N[es[j]].ln,
+                             {<<N[a].ns, N[a].ln>> : a \in SeqRange(AttrKids(N, es[j]))}>>]
+NameSeqK(N, top) ==
+    LET es == SelectSeq(PreNorm(N, top), LAMBDA x : N[x].k = "elem") IN
+    [j \in 1..Len(es) |-> <<N[es[j]].ns, N[es[j]].ln, {<<N[a].ns, N[a].ln>> : a \in SeqRange(AttrKids(N, es[j]))}>>]
+DocElemK(N, x) == LET es == SelectSeq(NormKids(N, x), LAMBDA y : N[y].k = "elem") IN IF Len(es) = 0 THEN 0 ELSE es[1]
+
+KnownSer(prop, e, detail) ==
+    LET N == e.st.n
+        rr == IF N[e.root].k = "doc" THEN e.reroot ELSE DocElemK(e.retree.n, e.reroot)
+    IN IF prop = "C10" /\ detail[1] = "a written name resolves to a different expanded name" /\ rr # 0
+            /\ NameSeqAsWritten(N, e.root) = NameSeqK(e.retree.n, rr)
+       THEN "K-C10-unprefixed-element-under-default-namespace"
+       ELSE IF prop = "C14" /\ e.frag /\ e.decl # 0 /\ detail[1] = "output is rejected by the parser"
+       THEN "K-C14-declaration-on-fragment"
+       ELSE ""
 
 =============================================================================
